@@ -313,6 +313,27 @@ where
     pub fn verif_name(&self) -> &str {
         &self.verif_name
     }
+
+    /// Persisted and in-memory histories with their versions decoded: (key, [(block, value)]), sorted by key.
+    pub fn verif_histories(
+        &self,
+    ) -> (
+        Vec<(Vec<u8>, Vec<(u64, Option<Vec<u8>>)>)>,
+        Vec<(Vec<u8>, Vec<(u64, Option<Vec<u8>>)>)>,
+    ) {
+        let mut cdb = Vec::new();
+        for kv in self.cache_db.full_iterator(IteratorMode::Start) {
+            if let Ok((k, v)) = kv {
+                if let Ok(c) = C::decode_vec(&v.to_vec()) {
+                    cdb.push((k.to_vec(), c.verif_entries()));
+                }
+            }
+        }
+        let mut cache: Vec<(Vec<u8>, Vec<(u64, Option<Vec<u8>>)>)> =
+            self.cache.iter().map(|(k, c)| (k.encode_vec(), c.verif_entries())).collect();
+        cache.sort();
+        (cdb, cache)
+    }
 }
 
 #[cfg(test)]
